@@ -10,6 +10,7 @@
  * Sections are selected by macros defined before the include:
  *   RP_XQUAD  RP_ISSQUARE  RP_ADD_GE  RP_ADD_VAR  RP_PED_SMALL  RP_PED  RP_PUB_EXPAND
  *   RP_BORRO_VERIFY  RP_BORRO_SIGN  RP_GENRAND  RP_HMAC  RP_MEMCPY  RP_ECMULT_WATCH
+ *   proved leaf contracts: RP_SET_B32  RP_FE_SET_B32_LIMIT  RP_GET_B32  RP_CH32XOR  RP_MEMCPY_WHOLE
  * RP_ECMULT_WATCH brings its own contracts for secp256k1_ecmult / secp256k1_ge_set_gej_var and
  * therefore must be used with hash_log.h/pre.h, not with assumed.h. */
 #ifndef VERIF_ASSUMED_RANGEPROOF_H
@@ -199,7 +200,9 @@ __CPROVER_ensures(__CPROVER_old(g_bs_n) == 0
  *      fixed arrays it hands over: sec[32], s[128], message[4096] and len <= 10. ---- */
 #ifdef RP_GENRAND
 int g_gr_n; const unsigned char *g_gr_nonce, *g_gr_proof; const secp256k1_ge *g_gr_commit, *g_gr_genp; size_t g_gr_len, g_gr_rings, g_gr_rs_k; unsigned char g_gr_proof_b; unsigned char *g_gr_msg;
-secp256k1_scalar *g_gr_sec, *g_gr_s; secp256k1_ge g_gr_commit_v, g_gr_genp_v; unsigned char g_gr_nonce_b;
+secp256k1_scalar *g_gr_sec, *g_gr_s; secp256k1_ge g_gr_commit_v, g_gr_genp_v; unsigned char g_gr_nonce_b; unsigned char g_gr_hdr[10];
+#define GR_HDR(j) ((j) < len ==> g_gr_hdr[j] == proof[j])
+#define GR_HDR_KEEP(j) (g_gr_hdr[j] == __CPROVER_old(g_gr_hdr[j]))
 static int secp256k1_rangeproof_genrand(const secp256k1_hash_ctx *hash_ctx, secp256k1_scalar *sec, secp256k1_scalar *s, unsigned char *message,
  size_t *rsizes, size_t rings, const unsigned char *nonce, const secp256k1_ge *commit, const unsigned char *proof, size_t len, const secp256k1_ge* genp)
 __CPROVER_requires(hash_ctx != NULL && len <= 10 && rings >= 1 && rings <= 32)
@@ -209,14 +212,15 @@ __CPROVER_requires(g_rp_k < rings ==> (rsizes[g_rp_k] >= 1 && rsizes[g_rp_k] <= 
 __CPROVER_requires(__CPROVER_w_ok(sec, 32 * sizeof(secp256k1_scalar)) && __CPROVER_w_ok(s, 128 * sizeof(secp256k1_scalar)) && (message == NULL || __CPROVER_rw_ok(message, 4096)))
 __CPROVER_assigns(__CPROVER_object_whole(sec), __CPROVER_object_whole(s))
 __CPROVER_assigns(message != NULL: __CPROVER_object_whole(message))
-__CPROVER_assigns(g_gr_n, g_gr_nonce, g_gr_proof, g_gr_commit, g_gr_genp, g_gr_len, g_gr_rings, g_gr_rs_k, g_gr_proof_b, g_gr_msg, g_gr_sec, g_gr_s, g_gr_commit_v, g_gr_genp_v, g_gr_nonce_b)
+__CPROVER_assigns(g_gr_n, g_gr_nonce, g_gr_proof, g_gr_commit, g_gr_genp, g_gr_len, g_gr_rings, g_gr_rs_k, g_gr_proof_b, g_gr_msg, g_gr_sec, g_gr_s, g_gr_commit_v, g_gr_genp_v, g_gr_nonce_b, g_gr_hdr)
 __CPROVER_ensures(__CPROVER_return_value == 0 || __CPROVER_return_value == 1)
 __CPROVER_ensures(g_gr_n == __CPROVER_old(g_gr_n) + 1)
 __CPROVER_ensures(__CPROVER_old(g_gr_n) == 0
     ? (g_gr_nonce == nonce && g_gr_proof == proof && g_gr_commit == commit && g_gr_genp == genp && g_gr_len == len && g_gr_rings == rings && g_gr_msg == message &&
        g_gr_sec == sec && g_gr_s == s && GE_EQ(g_gr_commit_v, commit) && GE_EQ(g_gr_genp_v, genp) &&
-       (g_rp_k < rings ==> g_gr_rs_k == rsizes[g_rp_k]) && (g_rp_b < len ==> g_gr_proof_b == proof[g_rp_b]) && (g_rp_b < 32 ==> g_gr_nonce_b == nonce[g_rp_b]))
-    : (RP_KEEP(g_gr_nonce) && RP_KEEP(g_gr_proof) && RP_KEEP(g_gr_commit) && RP_KEEP(g_gr_genp) && RP_KEEP(g_gr_len) && RP_KEEP(g_gr_rings) && RP_KEEP(g_gr_msg) &&
+       (g_rp_k < rings ==> g_gr_rs_k == rsizes[g_rp_k]) && (g_rp_b < len ==> g_gr_proof_b == proof[g_rp_b]) && (g_rp_b < 32 ==> g_gr_nonce_b == nonce[g_rp_b]) &&
+       GR_HDR(0) && GR_HDR(1) && GR_HDR(2) && GR_HDR(3) && GR_HDR(4) && GR_HDR(5) && GR_HDR(6) && GR_HDR(7) && GR_HDR(8) && GR_HDR(9))
+    : (GR_HDR_KEEP(0) && GR_HDR_KEEP(1) && GR_HDR_KEEP(2) && GR_HDR_KEEP(3) && GR_HDR_KEEP(4) && GR_HDR_KEEP(5) && GR_HDR_KEEP(6) && GR_HDR_KEEP(7) && GR_HDR_KEEP(8) && GR_HDR_KEEP(9) && RP_KEEP(g_gr_nonce) && RP_KEEP(g_gr_proof) && RP_KEEP(g_gr_commit) && RP_KEEP(g_gr_genp) && RP_KEEP(g_gr_len) && RP_KEEP(g_gr_rings) && RP_KEEP(g_gr_msg) &&
        RP_KEEP(g_gr_sec) && RP_KEEP(g_gr_s) && GE_KEEP(g_gr_commit_v) && GE_KEEP(g_gr_genp_v) && RP_KEEP(g_gr_rs_k) && RP_KEEP(g_gr_proof_b) && RP_KEEP(g_gr_nonce_b)))
 ;
 #endif
@@ -240,6 +244,75 @@ __CPROVER_requires(__CPROVER_r_ok(src, n) && __CPROVER_w_ok(dst, n))
 __CPROVER_assigns(__CPROVER_object_upto(dst, n))
 __CPROVER_ensures(__CPROVER_return_value == dst)
 __CPROVER_ensures(g_rp_b < n ==> ((unsigned char*)dst)[g_rp_b] == ((const unsigned char*)src)[g_rp_b])
+;
+#endif
+
+
+/* ================= PROVED leaf contracts (not assumptions) =================
+ * Byte-string readers/writers of the scalar/field layer, stated so that a caller that invokes them
+ * a hundred times at symbolic offsets of one big buffer stays tractable: the functional relation
+ * bytes <-> value is stated for ONE watched buffer position (a ghost pointer the harness fixes and
+ * nothing assigns), which is sound for "for all positions" because the watch is arbitrary.
+ * The functional part is enforced against the real bodies in units C10.leaf_* (RP_LEAF_ENFORCE drops
+ * the ghost-log clauses, which only constrain ghost variables). */
+#ifdef RP_SET_B32
+const unsigned char *g_sb_wp;            /* watch pointer: never assigned */
+int g_sb_n, g_sb_hit, g_sb_wovf, g_sb_or /* disjunction of all overflow verdicts so far */; secp256k1_scalar g_sb_wr;
+static void secp256k1_scalar_set_b32(secp256k1_scalar *r, const unsigned char *b32, int *overflow)
+__CPROVER_requires(__CPROVER_w_ok(r, sizeof(*r)) && __CPROVER_r_ok(b32, 32) && (overflow == NULL || __CPROVER_w_ok(overflow, sizeof(int))))
+# ifdef RP_LEAF_ENFORCE
+__CPROVER_assigns(*r) __CPROVER_assigns(overflow != NULL: *overflow)
+# else
+__CPROVER_assigns(*r, g_sb_n, g_sb_hit, g_sb_wovf, g_sb_or, g_sb_wr) __CPROVER_assigns(overflow != NULL: *overflow)
+__CPROVER_ensures(g_sb_n == __CPROVER_old(g_sb_n) + 1)
+__CPROVER_ensures(overflow != NULL ==> g_sb_or == (__CPROVER_old(g_sb_or) || *overflow))
+__CPROVER_ensures(overflow == NULL ==> RP_KEEP(g_sb_or))
+__CPROVER_ensures(b32 == g_sb_wp ? (g_sb_hit == 1 && SC_EQ(g_sb_wr, *r) && (overflow != NULL ==> g_sb_wovf == *overflow))
+                                 : (RP_KEEP(g_sb_hit) && SC_KEEP(g_sb_wr) && RP_KEEP(g_sb_wovf)))
+# endif
+__CPROVER_ensures(scalar_ok(r))
+__CPROVER_ensures(overflow != NULL ==> (*overflow == 0 || *overflow == 1))
+__CPROVER_ensures(b32 == g_sb_wp ==> (sval(r) == (be256(g_sb_wp) >= N_() ? be256(g_sb_wp) - N_() : be256(g_sb_wp)) && (overflow != NULL ==> *overflow == (be256(g_sb_wp) >= N_()))))
+;
+#endif
+#ifdef RP_FE_SET_B32_LIMIT
+const unsigned char *g_fl_wp;            /* watch pointer: never assigned */
+int g_fl_n, g_fl_hit, g_fl_wv, g_fl_and /* conjunction of all verdicts so far */; secp256k1_fe g_fl_wr;
+static int secp256k1_fe_impl_set_b32_limit(secp256k1_fe *r, const unsigned char *a)
+__CPROVER_requires(__CPROVER_w_ok(r, sizeof(*r)) && __CPROVER_r_ok(a, 32))
+# ifdef RP_LEAF_ENFORCE
+__CPROVER_assigns(*r)
+# else
+__CPROVER_assigns(*r, g_fl_n, g_fl_hit, g_fl_wv, g_fl_and, g_fl_wr)
+__CPROVER_ensures(g_fl_n == __CPROVER_old(g_fl_n) + 1 && g_fl_and == (__CPROVER_old(g_fl_and) && __CPROVER_return_value))
+__CPROVER_ensures(a == g_fl_wp ? (g_fl_hit == 1 && FE_EQ(g_fl_wr, *r) && g_fl_wv == __CPROVER_return_value) : (RP_KEEP(g_fl_hit) && FE_KEEP(g_fl_wr) && RP_KEEP(g_fl_wv)))
+# endif
+__CPROVER_ensures((__CPROVER_return_value == 0 || __CPROVER_return_value == 1) && fe_mag(r, 1) && (r->n[0] >> 52) == 0 && (r->n[1] >> 52) == 0 && (r->n[2] >> 52) == 0 && (r->n[3] >> 52) == 0 && (r->n[4] >> 48) == 0)
+__CPROVER_ensures(a == g_fl_wp ==> (__CPROVER_return_value == (be256(g_fl_wp) < P_()) && fval(r) == be256(g_fl_wp)))
+;
+#endif
+#ifdef RP_GET_B32
+/* replacement form used by the signing units: the frame is over-approximated to the whole destination
+ * object (one fresh array instead of 32 symbolic-offset updates); w_ok(bin,32) is the bounds obligation */
+int g_gb_n; unsigned char *g_gb_first, *g_gb_last;
+static void secp256k1_scalar_get_b32(unsigned char *bin, const secp256k1_scalar* a)
+__CPROVER_requires(__CPROVER_w_ok(bin, 32) && __CPROVER_r_ok(a, sizeof(*a)))
+__CPROVER_assigns(__CPROVER_object_whole(bin), g_gb_n, g_gb_first, g_gb_last)
+__CPROVER_ensures(g_gb_n == __CPROVER_old(g_gb_n) + 1 && g_gb_last == bin && g_gb_first == (__CPROVER_old(g_gb_n) == 0 ? bin : __CPROVER_old(g_gb_first)))
+;
+#endif
+#ifdef RP_CH32XOR
+static void secp256k1_rangeproof_ch32xor(unsigned char *x, const unsigned char *y)
+__CPROVER_requires(__CPROVER_rw_ok(x, 32) && __CPROVER_r_ok(y, 32))
+__CPROVER_assigns(__CPROVER_object_upto(x, 32))
+;
+#endif
+#ifdef RP_MEMCPY_WHOLE
+/* memcpy with the frame over-approximated to the whole destination object (DESIGN 2.4) */
+void *memcpy(void *dst, const void *src, size_t n)
+__CPROVER_requires(__CPROVER_r_ok(src, n) && __CPROVER_w_ok(dst, n))
+__CPROVER_assigns(__CPROVER_object_whole(dst))
+__CPROVER_ensures(__CPROVER_return_value == dst)
 ;
 #endif
 
